@@ -65,6 +65,9 @@ def _more_hand_made(P: Any) -> list[tuple[str, list[Any], list[list[Any]], list[
         o(0, "Jump", [2]), o(1, "Branch", [V("$A"), 1, 0]), o(2, "Branch", [V("$B"), 1, 1]), o(3, "End", [])]], [None]))
     sets.append(("entry-op-is-a-branch-target-2", [inf("GENERIC")], [[
         o(0, "Jump", [3]), o(1, "hm_never", []), o(2, "hm_body", []), o(3, "Branch", [V("$A"), 1, 5]), o(4, "End", []), o(5, "Branch", [V("$B"), 1, 0]), o(6, "Jump", [2])]], [None]))
+    # two loops that consist of tests only (a wait loop followed by a loop the loop detection opens and cannot close)
+    sets.append(("test-only-loops", [inf("GENERIC")], [[
+        o(0, "hm_first", []), o(1, "Branch", [V("$A"), 1, 1]), o(2, "Branch", [V("$B"), 1, 3]), o(3, "Jump", [2])]], [None]))
     sets.append(("irreducible-loop-through-first-op", [inf("GENERIC")], [[
         o(0, "hm_top", []), o(1, "Branch", [V("$A"), 1, 4]), o(2, "hm_x", []), o(3, "Jump", [5]), o(4, "hm_y", []), o(5, "hm_z", []), o(6, "Branch", [V("$B"), 2, 4]),
         o(7, "Branch", [V("$C"), 3, 0]), o(8, "Jump", [2])]], [None]))
